@@ -43,6 +43,10 @@ def parse(text: str, statement_stream_processor: "StatementStreamProcessor", *, 
         if _verif_trace.ENABLED:
             _verif_trace.emit("convert", layer="parse", cls="ParseError", line=int(ex.line()), path="None", at=0)  # type: ignore
         raise DSDLSyntaxError("Syntax error", line=int(ex.line())) from None  # type: ignore
+    except RecursionError:
+        # The PEG parser is recursive: an expression nested too deeply exhausts the interpreter stack before any statement
+        # is processed. This is a property of the text, not an internal failure; the line is not known at this point.
+        raise DSDLSyntaxError("Syntax error: the definition is nested too deeply to be parsed") from None
     except parsimonious.VisitationError as ex:  # pragma: no cover
         # noinspection PyBroadException
         try:
